@@ -203,7 +203,7 @@ class Gen:
             p = r.random()
             if p < 0.4:
                 subs.append(r.choice([{'k': 'str', 's': 'zz'}, {'k': 't', 'steps': [['[', jv('nope')]]},
-                                      self.fn('raise_glom'), self.fn('raise_ve')]))
+                                      self.fn('raise_glom'), self.fn('raise_ve'), self.fn('raise_multiline')]))
             else:
                 subs.append(self.spec(v, depth - 1))
         j = {'k': 'coalesce', 'subs': subs, 'dflt': None, 'dflt_factory': None, 'skip': None,
